@@ -375,6 +375,12 @@ impl<'a, 'b> Sentence<'a, 'b> {
                 }
             };
         }
+        if text.is_empty() {
+            return Err(VaporettoError::invalid_argument(
+                "tokenized_text",
+                "must contain at least one character",
+            ));
+        }
         if prev_boundary {
             return Err(VaporettoError::invalid_argument(
                 "tokenized_text",
